@@ -28,7 +28,8 @@ const (
 	fSchemaDesc      = "C05-schema-description-dropped"
 	fExtImplements   = "C05-extension-implements-dropped"
 	fBOM             = "C05-bom-rejected"
-	fBareQueryDirs   = "C05-bare-query-directives"
+	fQueryKeyword    = "C05-query-keyword-omitted"
+	fBlockBackslash  = "C05-block-string-leading-backslash"
 	fImplementsIdent = "C05-implements-followed-by-definition"
 )
 
@@ -44,9 +45,10 @@ const (
 // blockLits lists every block string literal of an accepted document (values and
 // descriptions) as (content reference, recovered raw text, cleanly delimited?).
 type blockLit struct {
-	content string
-	raw     string
-	clean   bool
+	content    string
+	raw        string
+	clean      bool
+	extraQuote bool
 }
 
 func blockLiterals(d *ast.Document) []blockLit {
@@ -56,8 +58,8 @@ func blockLiterals(d *ast.Document) []blockLit {
 		if r.Start > r.End || int(r.End) > len(d.Input.RawBytes) {
 			return
 		}
-		raw, ok := w.blockRaw(r)
-		out = append(out, blockLit{content: string(d.Input.RawBytes[r.Start:r.End]), raw: raw, clean: ok})
+		raw, ok, xq := w.blockRawQ(r)
+		out = append(out, blockLit{content: string(d.Input.RawBytes[r.Start:r.End]), raw: raw, clean: ok, extraQuote: xq})
 	}
 	for _, s := range d.StringValues {
 		if s.BlockString {
@@ -153,12 +155,12 @@ func nulInString(d *ast.Document) bool {
 	return hit
 }
 
-// blockQuotesInDoc: a block string whose content ends in a quote, or whose content is not
-// followed (after white space) by the closing delimiter — i.e. the lexer cut it short at a
-// quote that precedes trailing white space.
+// blockQuotesInDoc: a block string with a quote next to a delimiter: its content starts or
+// ends in a quote, or the content is not delimited (after white space) by exactly three quotes
+// on each side — i.e. the lexer cut the content at a quote that touches white space.
 func blockQuotesInDoc(d *ast.Document) bool {
 	for _, b := range blockLiterals(d) {
-		if strings.HasSuffix(b.content, `"`) || !b.clean {
+		if strings.HasSuffix(b.content, `"`) || strings.HasPrefix(b.content, `"`) || !b.clean || b.extraQuote {
 			return true
 		}
 	}
@@ -171,6 +173,32 @@ func blockTrimInDoc(d *ast.Document) bool {
 	for _, b := range blockLiterals(d) {
 		if b.clean && blockTrimClass(b.raw) {
 			return true
+		}
+	}
+	return false
+}
+
+// blockBackslashInDoc: a block string with a backslash before its first character that is
+// neither white space nor a quote.
+func blockBackslashInDoc(d *ast.Document) bool {
+	for _, b := range blockLiterals(d) {
+		if blockBackslashClass(b.content) {
+			return true
+		}
+	}
+	return false
+}
+
+// floatDanglingExponent: a float value whose literal ends in e/E. Such a literal is not a
+// FloatValue of the grammar; the lexer produces it when it stops at the sign of 1e-5 / 1E+5
+// (the rest is then read as a separate negative number where the context allows one).
+func floatDanglingExponent(d *ast.Document) bool {
+	in := d.Input.RawBytes
+	for _, f := range d.FloatValues {
+		if f.Raw.Start < f.Raw.End && int(f.Raw.End) <= len(in) {
+			if c := in[f.Raw.End-1]; c == 'e' || c == 'E' {
+				return true
+			}
 		}
 	}
 	return false
@@ -218,11 +246,22 @@ func extImplementsInDoc(d *ast.Document) bool {
 	return false
 }
 
-// bareQueryDirsInDoc: an operation of type query without name and variables but with
-// directives (the printer omits the keyword and starts the definition with '@').
-func bareQueryDirsInDoc(d *ast.Document) bool {
-	for _, o := range d.OperationDefinitions {
-		if o.OperationType == ast.OperationTypeQuery && o.Name.Length() == 0 && len(o.VariableDefinitions.Refs) == 0 && len(o.Directives.Refs) > 0 {
+// queryKeywordNeededInDoc: an operation of type query without name and variables (the printer
+// then omits the `query` keyword) that needs the keyword: it has directives or a description,
+// or it follows a type-system definition (whose optional body the '{' would become).
+func queryKeywordNeededInDoc(d *ast.Document) bool {
+	for i, rn := range d.RootNodes {
+		if rn.Kind != ast.NodeKindOperationDefinition || rn.Ref < 0 || rn.Ref >= len(d.OperationDefinitions) {
+			continue
+		}
+		o := d.OperationDefinitions[rn.Ref]
+		if o.OperationType != ast.OperationTypeQuery || o.Name.Length() != 0 || len(o.VariableDefinitions.Refs) != 0 {
+			continue
+		}
+		if len(o.Directives.Refs) > 0 || o.Description.IsDefined {
+			return true
+		}
+		if i > 0 && d.RootNodes[i-1].Kind != ast.NodeKindOperationDefinition && d.RootNodes[i-1].Kind != ast.NodeKindFragmentDefinition {
 			return true
 		}
 	}
@@ -241,8 +280,10 @@ func classifyAccepted(d *ast.Document, k string, diff string) string {
 			return fBlockQuotes
 		case k == kReparse && schemaEmptyInDoc(d):
 			return fSchemaEmpty
-		case k == kReparse && bareQueryDirsInDoc(d):
-			return fBareQueryDirs
+		case queryKeywordNeededInDoc(d):
+			return fQueryKeyword
+		case blockBackslashInDoc(d):
+			return fBlockBackslash
 		}
 	case kShape, kDiffer:
 		switch {
@@ -254,8 +295,14 @@ func classifyAccepted(d *ast.Document, k string, diff string) string {
 			return fExtImplements
 		case (strings.Contains(diff, "blockstring") || strings.Contains(diff, "desc")) && blockQuotesInDoc(d):
 			return fBlockQuotes
+		case (strings.Contains(diff, "blockstring") || strings.Contains(diff, "desc")) && blockBackslashInDoc(d):
+			return fBlockBackslash
 		case (strings.Contains(diff, "blockstring") || strings.Contains(diff, "desc")) && blockTrimInDoc(d):
 			return fBlockTrim
+		case strings.Contains(diff, "float") && floatDanglingExponent(d):
+			return fFloatExpSign
+		case queryKeywordNeededInDoc(d):
+			return fQueryKeyword
 		}
 	}
 	return ""
@@ -272,10 +319,51 @@ func classifyRejected(src string, feat map[string]bool) string {
 		return fBOM
 	case feat["float-exp-sign"] && reFloatExpSign.MatchString(src):
 		return fFloatExpSign
-	case feat["implements-without-body"]:
+	case feat["implements-without-body"] && identAfterInterfaceList([]byte(src)):
 		return fImplementsIdent
+	case feat["block-quote-class"] && strings.Contains(src, `\""""`):
+		return fBlockQuotes
 	}
 	return ""
+}
+
+// identAfterInterfaceList: the token stream has `implements [&] Name (& Name)*` directly
+// followed by another Name (the next definition's keyword): the parser's interface-list loop
+// reports that Name as unexpected instead of ending the list.
+func identAfterInterfaceList(in []byte) bool {
+	var l lexer.Lexer
+	var input ast.Input
+	input.ResetInputBytes(in)
+	l.SetInput(&input)
+	state := 0 // 0 outside, 1 after `implements` (or after &): name expected, 2 after a name
+	for i := 0; i < 1_000_000; i++ {
+		tok := l.Read()
+		switch tok.Keyword {
+		case keyword.EOF:
+			return false
+		case keyword.COMMENT:
+			continue
+		case keyword.IDENT:
+			lit := string(input.RawBytes[tok.Literal.Start:tok.Literal.End])
+			switch state {
+			case 0:
+				if lit == "implements" {
+					state = 1
+				}
+			case 1:
+				state = 2
+			case 2:
+				return true
+			}
+		case keyword.AND:
+			if state == 2 || state == 1 {
+				state = 1
+			}
+		default:
+			state = 0
+		}
+	}
+	return false
 }
 
 // ---- limits ----
@@ -380,7 +468,8 @@ func probes() pbt.Probes {
 		fSchemaDesc:      {Input: `"d" schema { query: Q }`, Fn: probeRoundTrip(`"d" schema { query: Q }`)},
 		fExtImplements:   {Input: `extend type T implements A { a: Int }`, Fn: probeRoundTrip(`extend type T implements A { a: Int }`)},
 		fBOM:             {Input: "\ufeff{ a }", Fn: probeRejected("\ufeff{ a }")},
-		fBareQueryDirs:   {Input: `query @d { a }`, Fn: probeRoundTrip(`query @d { a }`)},
+		fQueryKeyword:    {Input: `query @d { a }`, Fn: probeRoundTrip(`query @d { a }`)},
+		fBlockBackslash:  {Input: "\"\"\"\\a\"\"\" type T { a: Int }", Fn: probeRoundTrip("\"\"\"\\a\"\"\" type T { a: Int }")},
 		fImplementsIdent: {Input: `type T implements A type U { a: Int }`, Fn: probeRejected(`type T implements A type U { a: Int }`)},
 	}
 }
